@@ -259,7 +259,9 @@ Acs == {[name |-> "none", online |-> 0]} \cup [name : {"AC0", "AC"}, online : {0
 NowVals == {NoO, O(40)} \cup (IF Wide THEN {O(0), O(90)} ELSE {})
 PowerVals == {NoO, O(0), O(30)} \cup (IF Wide THEN {O(7)} ELSE {})
 \* a battery the kernel describes well enough to have a percentage
-Bats(w) == {b \in [layout : {"energy", "charge"}, now : NowVals, full : {NoO, O(80)}, power : PowerVals,
+\* layout "both": a fuel gauge that publishes the energy_* (uWh) AND the charge_* (uAh) files of one
+\* battery; the two families describe the same state in different units
+Bats(w) == {b \in [layout : {"energy", "charge", "both"}, now : NowVals, full : {NoO, O(80)}, power : PowerVals,
                    capacity : {NoO, O(57)}, tte : {NoO, O(30)}, status : Statuses] :
               (Known(b.now) /\ Known(b.full)) \/ Known(b.capacity)}
 B1 == Bat("energy", O(40), O(80), O(30), O(50), NoO, "Discharging")
